@@ -1,7 +1,13 @@
-#[global_allocator]
-static ALLOC: vf::engine::alloc::Counting = vf::engine::alloc::Counting;
+use candid::{Decode, Encode};
 fn main() {
-    let b = hex::decode("4449444c016d7b0100808080808080808040").unwrap();
-    let r = candid::IDLArgs::from_bytes(&b);
-    println!("{:?}", r.map(|a| a.to_string()));
+    let bytes = Encode!(&vec![1u8, 2, 3], &7u8).unwrap();
+    println!("{:?}", Decode!(&bytes, [u8; 2], u8));
+    let bytes = Encode!(&vec![1u16, 2, 3], &7u16).unwrap();
+    println!("{:?}", Decode!(&bytes, [u16; 2], u16));
+    let bytes = Encode!(&vec!["a".to_string(), "b".to_string(), "c".to_string()], &"z".to_string()).unwrap();
+    println!("{:?}", Decode!(&bytes, [String; 2], String));
+    let bytes = Encode!(&vec![Some(1u8), None, Some(3)]).unwrap();
+    println!("{:?}", Decode!(&bytes, [Option<u8>; 2]));
+    let bytes = Encode!(&vec![1u8]).unwrap();
+    println!("{:?}", Decode!(&bytes, [u8; 2]));
 }
